@@ -62,6 +62,13 @@ declarations_t* DocumentBuilder::getCurrentDeclarationBlock()
     return (currentTemplate ? currentTemplate : &document.get_globals());
 }
 
+void DocumentBuilder::unwindFrames(const frame_t& frame)
+{
+    // a label whose syntax error hit inside a quantifier never reached the quantifier's end: its frame is still open
+    while (frames.size() > 1 && frames.top() != frame)
+        popFrame();
+}
+
 void DocumentBuilder::addSelectSymbolToFrame(const std::string& id, frame_t& frame, position_t pos)
 {
     type_t type = typeFragments[0];
@@ -171,6 +178,8 @@ void DocumentBuilder::proc_begin(const char* name, const bool isTA, const string
 
 void DocumentBuilder::proc_end()  // 1 ProcBody
 {
+    if (currentTemplate)
+        unwindFrames(currentTemplate->frame);
     currentTemplate = nullptr;
     popFrame();
 }
@@ -191,6 +200,7 @@ void DocumentBuilder::proc_location(const char* name, bool hasInvariant, bool ha
         e = fragments[0];
         fragments.pop();
     }
+    unwindFrames(currentTemplate->frame);  // a location is declared directly in its template
     currentTemplate->add_location(name, e, f, position);
 }
 
@@ -236,6 +246,8 @@ void DocumentBuilder::proc_edge_begin(const char* from, const char* to, const bo
     symbol_t fid, tid;
 
     currentEdge = nullptr;  // the labels of an edge that cannot be added must not land on the previous edge
+    if (currentTemplate)
+        unwindFrames(currentTemplate->frame);  // an edge is declared directly in its template
     if (!resolve(from, fid) || (!fid.get_type().is_location() && !fid.get_type().is_branchpoint())) {
         handle_error(TypeException{"$No_such_location_or_branchpoint_(source)"});
         push_frame(frame_t::create(frames.top()));  // dummy frame for upcoming popFrame
@@ -252,7 +264,12 @@ void DocumentBuilder::proc_edge_begin(const char* from, const char* to, const bo
     }
 }
 
-void DocumentBuilder::proc_edge_end(const char* from, const char* to) { popFrame(); }
+void DocumentBuilder::proc_edge_end(const char* from, const char* to)
+{
+    popFrame();
+    if (currentTemplate)
+        unwindFrames(currentTemplate->frame);
+}
 
 void DocumentBuilder::proc_select(const char* id)
 {
